@@ -15,11 +15,6 @@ func init() {
 	vfHarnesses["VerifH_serveHTTP_status"] = VerifH_serveHTTP_status
 }
 
-// refTwirpCode: Twirp v7 error-code table keyed by the canonical gRPC code.
-var refTwirpCode = [17]string{"", "canceled", "unknown", "invalid_argument", "deadline_exceeded", "not_found", "already_exists",
-	"permission_denied", "resource_exhausted", "failed_precondition", "aborted", "out_of_range", "unimplemented", "internal",
-	"unavailable", "dataloss", "unauthenticated"}
-
 // VerifH_serveHTTP_status (C05, C18): a failing (or succeeding) unary call over HTTP transcoding and
 // Twirp: documented HTTP status, google.rpc.Status body with equal code and message under the
 // negotiated type, Twirp name of the code and message, status written once; interceptor and stats
